@@ -146,13 +146,36 @@ def run(case: dict, ctx) -> dict:
                 except ValueError:
                     continue
         raw = buf.getvalue()
+        start = 0
         if rng.random() < 0.4:
             raw = gzip.compress(raw)
             cnt["gzip_cases"] = 1
-        ref = tarfile.open(fileobj=io.BytesIO(raw))
+        elif rng.random() < 0.5:
+            # the archive does not start at offset 0 of the file object: it follows another archive or other data and the
+            # handle is positioned at its first header (readers start where the handle stands)
+            pre = io.BytesIO()
+            with tarfile.open(fileobj=pre, mode="w", format=tarfile.USTAR_FORMAT) as tp:
+                for j in range(rng.randrange(1, 4)):
+                    ti = tarfile.TarInfo(f"earlier/{j}")
+                    dd = bytes(rng.getrandbits(8) for _ in range(rng.randrange(1, 2000)))
+                    ti.size = len(dd)
+                    tp.addfile(ti, io.BytesIO(dd))
+            prefix = pre.getvalue() if rng.random() < 0.6 else bytes(rng.getrandbits(8) for _ in range(512 * rng.randrange(1, 9)))
+            start = len(prefix)
+            raw = prefix + raw
+            cnt["archives_not_at_offset_0"] = 1
+
+        def at(pos):
+            f_ = io.BytesIO(raw)
+            f_.seek(pos)
+            return f_
+
+        ref = tarfile.open(fileobj=at(start))
         want = [(m.name, m.type, m.size, m.linkname, ref.extractfile(m).read() if m.isreg() else None) for m in ref.getmembers()]
+        # TarFile() itself never decompresses: the plain class factory is only comparable on uncompressed archives
+        opener = vmtar.open if (cnt.get("gzip_cases") or rng.random() < 0.6) else vmtar.VisorTarFile
         o = call(lambda: [(m.name, m.type, m.size, m.linkname, t2.extractfile(m).read() if m.isreg() else None)
-                          for t2 in [vmtar.open(fileobj=io.BytesIO(raw))] for m in t2.getmembers()])
+                          for t2 in [opener(fileobj=at(start))] for m in t2.getmembers()])
         if not o.ok:
             res["viol"].append({"what": f"non-visor archive failed: {o.brief()}", "mech": MECH, "detail": {"tb": o.tb}})
         elif o.value != want:
